@@ -236,6 +236,149 @@ def rule_no_dup_keyword(ctx, rep, rule_id="R-NO-DUP-KEYWORD"):
         rep.instance(rule_id, "codebase", "src/", True, detail="no rule-detected codemod appends a keyword")
 
 
+def _shape_attrs(ctx, fn: FuncInfo, param: str, depth: int = 2, _seen=None, within: list | None = None) -> dict[str, ast.AST]:
+    """Child attributes of the node bound to `param` whose *shape* (node class / matcher) fn tests: isinstance(p.a, ...), m.matches(p.a, ...),
+    `match p.a`, m.matches(p, m.T(a=...)), `match p: case cst.T(a=...)`, also through methods of the class that receive p."""
+    _seen = _seen or set()
+    if (fn.qname, param) in _seen:
+        return {}
+    _seen.add((fn.qname, param))
+    out: dict[str, ast.AST] = {}
+
+    def attr_of(e):
+        return e.attr if isinstance(e, ast.Attribute) and isinstance(e.value, ast.Name) and e.value.id == param else None
+
+    def matcher_fields(e, r):
+        e = r.expand(e) if isinstance(e, ast.Name) else e
+        if isinstance(e, ast.Call):
+            return [k.arg for k in e.keywords if k.arg]
+        return []
+
+    r = ctx.resolver(fn)
+    for c in (walk_no_nested(fn.node) if within is None else (y for w in within for y in ast.walk(w))):
+        if isinstance(c, ast.Call):
+            f = unparse(c.func)
+            if f == "isinstance" and c.args:
+                a = attr_of(c.args[0])
+                if a:
+                    out.setdefault(a, c)
+            elif f.endswith("matches") and len(c.args) >= 2:
+                a = attr_of(c.args[0])
+                if a:
+                    out.setdefault(a, c)
+                elif isinstance(c.args[0], ast.Name) and c.args[0].id == param:
+                    for k in matcher_fields(c.args[1], r):
+                        out.setdefault(k, c)
+            elif depth and isinstance(c.func, ast.Attribute) and isinstance(c.func.value, ast.Name) and c.func.value.id == "self":
+                pos = [i for i, a in enumerate(c.args) if isinstance(a, ast.Name) and a.id == param]
+                kws = [k.arg for k in c.keywords if isinstance(k.value, ast.Name) and k.value.id == param]
+                if pos or kws:
+                    try:
+                        ts = [t for t in r.resolve_call(c) if isinstance(t, FuncInfo)]
+                    except Exception:
+                        ts = []
+                    for t in ts:
+                        pp = t.positional_params()[1:]
+                        for i in pos:
+                            if i < len(pp):
+                                for k, v in _shape_attrs(ctx, t, pp[i], depth - 1, _seen).items():
+                                    out.setdefault(k, c)
+                        for kw in kws:
+                            for k, v in _shape_attrs(ctx, t, kw, depth - 1, _seen).items():
+                                out.setdefault(k, c)
+        elif isinstance(c, ast.Match):
+            a = attr_of(c.subject)
+            if a:
+                out.setdefault(a, c)
+            elif isinstance(c.subject, ast.Name) and c.subject.id == param:
+                for cs in c.cases:
+                    for pat in ast.walk(cs.pattern):
+                        if isinstance(pat, ast.MatchClass):
+                            for k in pat.kwd_attrs:
+                                out.setdefault(k, c)
+                            break
+    return out
+
+
+def rule_fold_sees_updated(ctx, rep, rule_id="R-FOLD-SEES-UPDATED"):
+    rep.rule(
+        rule_id,
+        "a leave_ hook that decides on the shape of a child of *updated_node* (its children may have been rewritten by the same transformer "
+        "on the way up: `(a or b) or (c or d)` folds inside-out) does not also decide on the shape of the same child of *original_node*: "
+        "the two beliefs contradict each other, and a stale pre-filter on the original child makes the first run stop half-way while a "
+        "second run finishes the job (no fixed point)",
+        min_instances=10,
+    )
+    from .c02 import families
+
+    n = 0
+    seen = set()
+    for tq, tm in families(ctx).items():
+        for cls in tm.classes:
+            for m in cls.methods.values():
+                if not m.name.startswith("leave_") or m.qname in seen:
+                    continue
+                ps = m.positional_params()
+                if len(ps) < 3:
+                    continue
+                seen.add(m.qname)
+                o, u = ps[1], ps[2]
+                # pre-filters: conditions under which the hook gives up at once (`if <test>: return updated_node`)
+                skips = [st.test for st in walk_no_nested(m.node) if isinstance(st, ast.If) and len(st.body) == 1 and isinstance(st.body[0], ast.Return)
+                         and isinstance(st.body[0].value, ast.Name) and st.body[0].value.id in (o, u)]
+                O = _shape_attrs(ctx, m, o, within=skips) if skips else {}
+                U = _shape_attrs(ctx, m, u)
+                n += 1
+                both = sorted(set(O) & set(U))
+                rep.check(rule_id, m.qname, m.loc(O[both[0]]) if both else m.loc(), not both, "original-vs-updated-child",
+                          f"the shape of `{o}.{both[0] if both else ''}` is tested here while the hook also decides on `{u}.{both[0] if both else ''}`: after an inner "
+                          "node was rewritten the two differ, so the outer node is skipped in this run and rewritten in the next one")
+    if n < 10:
+        raise AnalysisError(f"only {n} leave_ hooks found in registered transformers")
+
+
+def rule_no_work_budget(ctx, rep, rule_id="R-NO-WORK-BUDGET"):
+    rep.rule(
+        rule_id,
+        "no method of a registered transformer gives up by a *budget*: a counter kept on the instance (`self.n += 1`) compared with a "
+        "bound that guards an early return of the unchanged input / a break out of the work loop.  Work cut off by a budget is finished "
+        "by the next run (second run reports changes), and the first run reports success",
+        min_instances=50,
+    )
+    from .c02 import families
+
+    n = 0
+    seen = set()
+    for tq, tm in families(ctx).items():
+        for cls in tm.classes:
+            if cls.qname in seen:
+                continue
+            seen.add(cls.qname)
+            counters = set()
+            for m in cls.methods.values():
+                for a in walk_no_nested(m.node):
+                    if isinstance(a, ast.AugAssign) and isinstance(a.op, ast.Add) and isinstance(a.target, ast.Attribute) and isinstance(a.target.value, ast.Name) and a.target.value.id == "self":
+                        counters.add(a.target.attr)
+            n += 1
+            bad = None
+            for m in cls.methods.values():
+                params = set(m.params())
+                for st in walk_no_nested(m.node):
+                    if not isinstance(st, ast.If) or not isinstance(st.test, ast.Compare):
+                        continue
+                    used = {x.attr for x in ast.walk(st.test) if isinstance(x, ast.Attribute) and isinstance(x.value, ast.Name) and x.value.id == "self"} & counters
+                    if not used or not isinstance(st.test.ops[0], (ast.Gt, ast.GtE, ast.Lt, ast.LtE)):
+                        continue
+                    b = st.body[-1]
+                    gives_up = isinstance(b, (ast.Break, ast.Continue)) or (isinstance(b, ast.Return) and (b.value is None or (isinstance(b.value, ast.Name) and b.value.id in params)))
+                    if gives_up:
+                        bad = (m, st, sorted(used)[0])
+            rep.check(rule_id, cls.qname, bad[0].loc(bad[1]) if bad else cls.loc(), bad is None, "budget",
+                      f"`if {unparse(bad[1].test)[:60]}:` gives up once the counter self.{bad[2]} passes a bound: what is left is done by the next run" if bad else "")
+    if n < 50:
+        raise AnalysisError(f"only {n} transformer classes scanned")
+
+
 def check(ctx, rep):
     rep.explanation = (
         "The 22 codemods with a semgrep rule of their own are described twice in the repository: as a rule (YAML) and as a libcst "
@@ -252,6 +395,8 @@ def check(ctx, rep):
     from .c06 import rule_rule_keyed
 
     rule_rule_keyed(ctx, rep)
+    rule_fold_sees_updated(ctx, rep)
+    rule_no_work_budget(ctx, rep)
     rep.not_covered += [
         "fixed point for arbitrary programs and for codemods without a rule of their own (beyond the table rule)",
         "codemods listed as not-modelled: " + ", ".join(sorted(NOT_MODELLED)),
